@@ -112,3 +112,11 @@ func verifYield(point string) {
 		VerifYieldHook(point)
 	}
 }
+
+// VerifConfigUpdateFor is VerifConfigUpdate for a request that names a policy group, as the RM proxy passes it on.
+func (cc *ClusterContext) VerifConfigUpdateFor(rmID, policyGroup, config string, extra map[string]string) (bool, string) {
+	ch := make(chan *rmevent.Result, 1)
+	cc.processRMConfigUpdateEvent(&rmevent.RMConfigUpdateEvent{RmID: rmID, PolicyGroup: policyGroup, Config: config, ExtraConfig: extra, Channel: ch})
+	r := <-ch
+	return r.Succeeded, r.Reason
+}
